@@ -253,6 +253,11 @@ Definition f_names (st : kv) (h : handle) : kv * handle * (list str + err) :=
   match h_names h with
   | Some r => (st, h, r)
   | None =>
+    if h_fresh h then
+      (* a handle that created its file holds a record of its own (newFile), not one the store returned: its
+         ReadDirNames answers ErrNotDir without a store call *)
+      (st, set_names h (inr (Bare ENOTDIR)), inr (Bare ENOTDIR))
+    else
     let '(st1, r) := snames st (h_path h) (h_mode h) in
     (st1, set_names h r, r)
   end.
